@@ -219,15 +219,15 @@ func c13Lookup(c *core.Ctx, cfg bandCfg, b band.Band, snap band.VerifSnapshot) {
 			}
 			c.Shape("lookup", cfg.Name, i, up)
 		}
-		// a direction the data-rate does not support must not resolve to it
+		// a direction the data-rate does not support is outside the property ("in a direction it supports"):
+		// an error, or falling back to the other direction's entry, are both fine - it must only not panic
 		for _, up := range []bool{true, false} {
 			if (up && d.Uplink) || (!up && d.Downlink) {
 				continue
 			}
-			got, err := b.GetDataRateIndex(up, dr)
 			c.Eval(1)
-			if err == nil && got == i {
-				c.Violate(fmt.Sprintf("C13|%s|getdatarateindex-wrong-direction|dr=%d|up=%v", cfg.Name, i, up), "DR%d is not usable for up=%v but GetDataRateIndex returns it", i, up)
+			if p, msg := core.Guard(func() { _, _ = b.GetDataRateIndex(up, dr) }); p {
+				c.Violate(fmt.Sprintf("C13|%s|getdatarateindex-panic|dr=%d|up=%v", cfg.Name, i, up), "GetDataRateIndex(up=%v, DR%d parameters): %s", up, i, msg)
 			}
 		}
 	}
